@@ -54,7 +54,7 @@ int main(int argc, char **argv) {
         return 2;
     }
 
-    int N = thorough ? 10 : 8;
+    int N = thorough ? 11 : 8;
 #ifdef VERIF_ASAN
     N = thorough ? 6 : 5;
 #endif
